@@ -90,8 +90,17 @@ def main():
             qdir = os.path.join(outdir, 'q')
             return core.run_cbmc(q['name'], m.gb, q.get('entry', q['name']), qdir, unwind=q.get('unwind', 8),
                                  unwindset=q.get('unwindset', ()), timeout=q.get('timeout', 300),
-                                 mem_gb=q.get('mem_gb', 12), extra=q.get('extra', ()), words=m.words)
+                                 mem_gb=q.get('mem_gb', 12), extra=q.get('extra', ()), words=m.words, witness=q.get('witness', 'all'))
         results = core.parallel(queries, runq, args.workers) if not inconclusive else []
+    # ---- schedules that the model prunes as infeasible (e.g. the inner unit would have to block): a vacuous query is accepted
+    #      only if it declares a family and another query of that family is decided non-vacuously
+    fam_ok = set(q.get('family') for q, r in zip(queries, results) if r.status == 'ok' and q.get('family'))
+    n_infeasible = 0
+    for q, r in zip(queries, results):
+        if r.vacuous and q.get('family') in fam_ok and len(r.inconclusive) == 1 and not r.violations:
+            r.status = 'infeasible'
+            r.inconclusive = []
+            n_infeasible += 1
     # ---- classify
     known, fixed = core.load_known_findings()
     violations = []  # (query, propid, desc)
@@ -173,7 +182,7 @@ def main():
             'samples': samples,
             'obligations': obligations, 'discharged': discharged,
             'witnesses_reached': sum(r.witness_reached for r in results),
-            'queries_ok': n_ok, 'queries_violation': sum(1 for r in results if r.status == 'violation'),
+            'queries_ok': n_ok, 'queries_infeasible_schedule': n_infeasible, 'queries_violation': sum(1 for r in results if r.status == 'violation'),
             'queries_inconclusive': sum(1 for r in results if r.status in ('inconclusive', 'error')),
             'inconclusive': inconclusive[:20],
             'functions_encoded_count': len(funcs), 'functions_encoded': shown[:400],
